@@ -384,6 +384,13 @@ def pivot_cases(rng, quick):
         n = rng.choice([2, 3, 4, 5])
         rows = [[rng.choice(pool), rng.choice(pool[:2]), rng.choice(['p', 'q', 1]), rng.choice(Z_VALUES)] for _ in range(n)]
         yield dict(cols=['a', 'b', 'y', 'z'], rows=rows, x=rng.choice(xs_opts), agg=rng.choice(AGGS))
+    # y values (the future column labels) that are NaN objects of one or two identities: cmp-equal, not ==
+    for _ in range(40 if quick else 1000):
+        pool = rng.sample(PLAIN, 2)
+        ys = rng.choice([['nan1'], ['nan1', 'nan2'], ['p', 'nan1', 'nan2']])
+        n = rng.choice([2, 3, 4])
+        rows = [[rng.choice(pool), rng.choice(pool[:2]), rng.choice(ys), rng.choice(Z_VALUES)] for _ in range(n)]
+        yield dict(cols=['a', 'b', 'y', 'z'], rows=rows, x=rng.choice(xs_opts), agg=rng.choice(AGGS), nan_y=True)
 
 
 def run(tier, seed):
